@@ -1,9 +1,6 @@
 // ===== spec/fn_algebra.rs : value-level contracts of the Function operators (C02) =====
 // The merges in the map-based leaves drop accumulated coefficients with |c| <= 2^-52 ("documented dropping of coefficients
 // below machine epsilon").  The dropped part is carried as an explicit remainder; it is 0 for the map-free arms.
-pub uninterp spec fn add_rem(a: v1::Function, b: v1::Function, m: Map<u64, F64>) -> real;
-pub uninterp spec fn mul_rem(a: v1::Function, b: v1::Function, m: Map<u64, F64>) -> real;
-pub uninterp spec fn neg_rem(a: v1::Function, m: Map<u64, F64>) -> real;
 pub open spec fn is_sum(r: v1::Function, a: v1::Function, b: v1::Function) -> bool {
     &&& r.function is Some
     &&& fn_ids(r).subset_of(fn_ids(a).union(fn_ids(b)))
